@@ -151,3 +151,25 @@ Definition ty_width (t : string) : option nat :=
   else if orb (orb (String.eqb t "u32") (String.eqb t "i32")) (String.eqb t "f32") then Some 4%nat
   else if orb (orb (String.eqb t "u64") (String.eqb t "i64")) (String.eqb t "f64") then Some 8%nat
   else None.
+
+Definition path_join (a b : string) : string := a ++ "/" ++ b.
+
+(* every packet of a model with its path: top-level packets by name, inline packets under
+   <parent path>/<field name>, inline ones first (the order generators emit them in) *)
+Fixpoint packets_under (path : string) (p : packet) {struct p} : list (string * packet) :=
+  match p with
+  | mkPacket _ _ _ fs _ =>
+      ((fix inl (fs : list field) : list (string * packet) :=
+         match fs with
+         | [] => []
+         | mkField fname (AObj true _ _ (Some q)) _ _ :: r =>
+             (packets_under (path_join path fname) q ++ inl r)%list
+         | _ :: r => inl r
+         end) fs ++ [(path, p)])%list
+  end.
+
+Definition all_packets (M : bmodel) : list (string * packet) :=
+  flat_map (fun p => packets_under (p_name p) p) (m_packets M).
+
+Definition packet_at (M : bmodel) (path : string) : option packet := assoc (all_packets M) path.
+
